@@ -41,10 +41,11 @@ CHECKS = {
  "C06": ("Coq theorems C06_decode_total (for EVERY byte string the decoder model returns Ok or Err, never Panic — by inversion of the stream parser through all "
          "bp7 visitors), C06_receive_path_total (forwarding update, lifetime check, timestamp display, unix conversion cannot panic on any decodable "
          "bundle in checked or wrapping arithmetic), C06_depth_bounded (>= 128 nested tags are an error: the recursion budget is effective), "
-         "C06_length_claims_checked, C06_decoded_shape; K-dec on all strings of length <= 2 (+3-byte sample; thorough: all <= 3) and K-rx (receive path) "
+         "C06_length_claims_checked, C06_decoded_shape, C06_admin_record_total (the administrative-record decoder a receiver applies to the payload "
+         "returns Ok or Err for EVERY byte string, through the size_hint-branching visitors); K-dec on all strings of length <= 2 (+3-byte sample; thorough: all <= 3) and K-rx (receive path) "
          "on structure-aware mutants and targeted boundary bundles in debug and release builds. PARTIAL: allocation volume inside serde and stack bytes "
          "per frame are runtime behaviour outside the model; operations that are total functions of the model (validate, crc_valid, add block, re-encode) "
-         "are tied to the code by the channel only; EID accessors, IDs, admin-record decoding and JSON are covered under C10/C13/C12/C15.",
+         "are tied to the code by the channel only; EID accessors, IDs and JSON are covered under C10/C13/C15.",
          "partial as stated; clock >= 2000-01-01 for operations reading it.", "DESIGN.md section 6 C06"),
  "C07": ("Coq theorems C07_validate_iff / C07_rejects_nonempty / C07_on_decoded: for every bundle in the decoder's image (C07_decoded_shape, by inverting "
          "the stream-parser model) outside the stale reserved masks, the transcription of Bundle::validate returns no error iff the rule list of the "
